@@ -399,13 +399,26 @@ func (g *GateResult) atomOf(cond ssa.Value) (*atom, bool) {
 	// `check(n) != nil` with check an error-returning predicate of the module
 	if b.Op == token.EQL || b.Op == token.NEQ {
 		var call *ssa.Call
-		if c, ok := b.X.(*ssa.Call); ok && isNilConst(b.Y) {
+		errOf := func(v ssa.Value) *ssa.Call {
+			if c, ok := v.(*ssa.Call); ok && isErrorType(c.Type()) {
+				return c
+			}
+			if ex, ok := v.(*ssa.Extract); ok && isErrorType(ex.Type()) {
+				if c, ok := ex.Tuple.(*ssa.Call); ok {
+					if f := c.Call.StaticCallee(); f != nil && ex.Index == f.Signature.Results().Len()-1 {
+						return c
+					}
+				}
+			}
+			return nil
+		}
+		if c := errOf(b.X); c != nil && isNilConst(b.Y) {
 			call = c
-		} else if c, ok := b.Y.(*ssa.Call); ok && isNilConst(b.X) {
+		} else if c := errOf(b.Y); c != nil && isNilConst(b.X) {
 			call = c
 		}
 		if call != nil && g.InModule != nil {
-			if f := call.Call.StaticCallee(); f != nil && g.InModule(f) && len(call.Call.Args) == 1 && len(f.Params) == 1 && len(f.Blocks) > 0 && isErrorType(call.Type()) {
+			if f := call.Call.StaticCallee(); f != nil && g.InModule(f) && len(call.Call.Args) == 1 && len(f.Params) == 1 && len(f.Blocks) > 0 {
 				if e := g.derive(call.Call.Args[0], 0); e != nil && len(e.ops) == 0 {
 					if ps := g.predicate(f); ps != nil {
 						a := &atom{e: e, op: token.EQL, pred: ps} // "the predicate holds" = a non-nil error
@@ -865,11 +878,14 @@ func (g *GateResult) predicate(f *ssa.Function) *predSets {
 		return nil
 	}
 	// the result is a bool, or an error (then "true" stands for "returns a non-nil error")
+	// (an error-returning predicate may have other results before the error: `(size, error)`)
 	isErr := false
-	if res := f.Signature.Results(); res.Len() != 1 {
-		return nil
-	} else if isErrorType(res.At(0).Type()) {
+	res := f.Signature.Results()
+	ri := res.Len() - 1
+	if ri >= 0 && isErrorType(res.At(ri).Type()) {
 		isErr = true
+	} else if res.Len() != 1 {
+		return nil
 	} else if b, ok := res.At(0).Type().Underlying().(*types.Basic); !ok || b.Kind() != types.Bool {
 		return nil
 	}
@@ -882,7 +898,7 @@ func (g *GateResult) predicate(f *ssa.Function) *predSets {
 		for _, in := range b.Instrs {
 			switch in.(type) {
 			case *ssa.BinOp, *ssa.UnOp, *ssa.Phi, *ssa.If, *ssa.Jump, *ssa.Return, *ssa.DebugRef, *ssa.Convert, *ssa.ChangeType, *ssa.IndexAddr, *ssa.Lookup, *ssa.Extract:
-			case *ssa.Call, *ssa.Alloc, *ssa.Store, *ssa.MakeInterface, *ssa.Slice:
+			case *ssa.Call, *ssa.Alloc, *ssa.Store, *ssa.MakeInterface, *ssa.Slice, *ssa.FieldAddr:
 				// building an error value (fmt.Errorf("…%w", sentinel), errors.New): allowed in an
 				// error-returning predicate, and only that
 				if !isErr {
@@ -894,7 +910,13 @@ func (g *GateResult) predicate(f *ssa.Function) *predSets {
 					}
 				}
 				if st, ok := in.(*ssa.Store); ok {
-					if _, local := st.Addr.(*ssa.IndexAddr); !local {
+					switch ad := st.Addr.(type) {
+					case *ssa.IndexAddr:
+					case *ssa.FieldAddr: // a field of a local struct being built as another result
+						if _, local := ad.X.(*ssa.Alloc); !local {
+							return nil
+						}
+					default:
 						return nil
 					}
 				}
@@ -946,7 +968,7 @@ func (g *GateResult) predicate(f *ssa.Function) *predSets {
 	}
 	for _, ret := range returnsOf(f) {
 		b := ret.Block()
-		v := ret.Results[0]
+		v := ret.Results[ri]
 		if phi, ok := v.(*ssa.Phi); ok && phi.Block() == b {
 			for i, pr := range b.Preds {
 				if !addVal(phi.Edges[i], inner.Edge[[2]*ssa.BasicBlock{pr, b}]) {
